@@ -208,6 +208,58 @@ def stateful(ctx):
             if abs(after[ELEMS[el].upper()] - now[ELEMS[el].upper()] - 0.5) > 1e-9:
                 common.add_violation(ctx, 'an atom that is not a Q-peak (added behind the Q-peak list) is left out of the exact sum formula',
                                      dict(case, element=ELEMS[el]), now[ELEMS[el].upper()] + 0.5, after[ELEMS[el].upper()])
+    # occupation codes on PART instructions (positive and negative part numbers) and atom lines that end with the occupation code
+    for k in range(40 if ctx.thorough() else 8):
+        fv2, fv3 = round(rng.uniform(0.1, 0.9), 3), round(rng.uniform(0.1, 0.9), 3)
+        fvx = [1.0, fv2, fv3]
+        lines, expect = [], []
+        n_ = 0
+
+        def at(el, fields, code):
+            nonlocal n_
+            n_ += 1
+            nm = '%s%d' % (ELEMS[el], n_)
+            xyz = '%.4f %.4f %.4f' % (rng.random(), rng.random(), rng.random())
+            lines.append(' '.join([nm, str(el + 1), xyz] + fields))
+            expect.append((nm, el, code))
+        for blk in range(rng.randint(2, 5)):
+            pn = rng.choice([1, 2, -1, -2, 3])
+            pcode = rng.choice([None, 21.0, -21.0, 31.0, -31.0, 10.5, 20.5, -30.25])
+            lines.append('PART %d' % pn if pcode is None else 'PART %d %s' % (pn, pcode))
+            for _ in range(rng.randint(1, 3)):
+                own = rng.choice([11.0, 11.0, 21.0, -21.0, 10.25, 30.5])
+                form = rng.choice(['full', 'full', 'six', 'five'])
+                if form == 'five':
+                    at(rng.randrange(4), [], pcode if pcode is not None else 11.0)
+                else:
+                    eff = own if pcode is None else pcode        # an occupation code on the PART instruction replaces the one of the atom line
+                    at(rng.randrange(4), ['%.5f' % own] + (['0.04'] if form == 'full' else []), eff)
+        lines.append('PART 0')
+        for _ in range(rng.randint(1, 3)):
+            own = rng.choice([21.0, -21.0, 10.25, 30.5, -30.5, 11.0])
+            at(rng.randrange(4), ['%.5f' % own], own)                             # name sfac x y z sof   (U omitted)
+        text = HEADER.format(sfac=' '.join(ELEMS), unit='8 8 8 8 8') + 'FVAR ' + ' '.join(str(v) for v in fvx) + '\n' + '\n'.join(lines) + '\nHKLF 4\nEND\n'
+        shx = read(text)
+        got = dict((a.name.upper(), a.occupancy) for a in shx.atoms)
+        sums = {}
+        bad = False
+        for nm, el, code in expect:
+            ev += 1
+            exp = rule(code, fvx)
+            sums[ELEMS[el].upper()] = sums.get(ELEMS[el].upper(), 0.0) + (exp or 0.0)
+            if nm.upper() not in got:
+                common.add_violation(ctx, 'an atom line of the file is not in the atom list', {'text': text, 'atom': nm}, nm, sorted(got)[:8])
+                bad = True
+                break
+            if exp is not None and abs(got[nm.upper()] - exp) > 1e-9:
+                common.add_violation(ctx, 'the occupancy of an atom does not follow the occupation code in force (the one on the enclosing PART instruction, else its own)',
+                                     {'text': text, 'atom': nm, 'code_in_force': code}, exp, got[nm.upper()])
+                bad = True
+                break
+        if not bad:
+            d_ = dict((key.upper(), v) for key, v in shx.sum_formula_exact_as_dict().items())
+            if any(abs(d_.get(e, 0.0) - v) > 1e-6 for e, v in sums.items()):
+                common.add_violation(ctx, 'the exact sum formula is not the sum of the occupancies', {'text': text}, sums, d_)
     # the text of the exact formula for sums that are whole numbers ending in zero, large sums and small fractions
     import re as _re
     for k in range(12 if ctx.thorough() else 4):
